@@ -1,4 +1,6 @@
 """C16 - the result proxy is transparent for every operation that works on the real value."""
+import copy
+import math
 import contextlib
 import io
 import math
@@ -529,18 +531,55 @@ def check_results_survive_assertions(ctx, h):
             except Exception:
                 continue
             was = unwrap(p)
+            # (what a container held before, where that can be told without using it up)
+            held = copy.copy(was) if isinstance(was, (list, set, dict, tuple, str, range, frozenset)) else None
             case = {'kind': 'A', 'value': expr, 'how': how}
-            for aname, args in (('assert_equal', (p, [0, 2, 4])), ('assert_in', (2, p)), ('assert_length_equal', (p, 3)), ('assert_not_equal', (p, 5)), ('assert_is_instance', (p, list))):
+            for aname, args in (('assert_equal', (p, [0, 2, 4])), ('assert_in', (2, p)), ('assert_length_equal', (p, 3)), ('assert_not_equal', (p, 5)), ('assert_is_instance', (p, list)),
+                                ('assert_equal', (p, {1.0000001, 2})), ('assert_equal', (p, {1, 3})), ('assert_not_equal', (p, {2, 1})), ('assert_equal', ({2, 1.0000001}, p)),
+                                ('assert_equal', (p, [1, 2, 3.0000001])), ('assert_equal', (p, (1, 2.0000001)))):
                 try:
                     getattr(rt, aname)(*args)
                 except Exception:
                     pass
                 ctx.count('results_checked_after_an_assertion')
-                ctx.case('A:%s:%s:%s' % (expr, how, aname))
+                ctx.case('A:%s:%s:%s:%r' % (expr, how, aname, args[-1] if args[0] is p else args[0]))
                 if unwrap(p) is not was:
                     ctx.violation('C16|result-changed-by-an-assertion|%s|%s' % (aname, type(was).__name__), dict(case, assertion=aname),
                                   'the result held %s; after %s it holds %s' % (_short(was), aname, _short(unwrap(p))))
                     break
+                if held is not None and not (unwrap(p) == held and len(unwrap(p)) == len(held)):
+                    ctx.violation('C16|result-contents-changed-by-an-assertion|%s|%s' % (aname, type(was).__name__), dict(case, assertion=aname),
+                                  'the result held %s; after %s%r it holds %s' % (_short(held), aname, tuple(_short(a) for a in args), _short(unwrap(p))))
+                    break
+    # ---- the grader switches the proxies off for later results (result_proxy_class = None): what she already holds stays what it was
+    from pedal.sandbox import commands as sbx
+    sandbox = sbx.get_sandbox()
+    for expr, ops in (('7', [lambda v: v + 1, lambda v: -v, lambda v: v * 2, lambda v: v // 2, lambda v: v & 3, lambda v: round(v), lambda v: 3 - v, lambda v: abs(v)]),
+                      ('[1, 2, 3]', [lambda v: v[0], lambda v: v + [4], lambda v: v * 2, lambda v: v[1:], lambda v: len(v)]),
+                      ("'abc'", [lambda v: v + 'd', lambda v: v[0], lambda v: v * 2, lambda v: v.upper()]),
+                      ('2.5', [lambda v: v * 2, lambda v: math.floor(v), lambda v: math.ceil(v), lambda v: round(v, 1), lambda v: -v])):
+        for how in ('evaluate', 'call'):
+            saved = sandbox.result_proxy_class
+            try:
+                p = h._make(expr, how)
+                plain = eval(expr)
+                sandbox.result_proxy_class = None
+                for i, op in enumerate(ops):
+                    ctx.count('operations_on_earlier_results_after_proxies_were_switched_off')
+                    ctx.case('P:%s:%s:%d' % (expr, how, i))
+                    want = op(plain)
+                    try:
+                        got = unwrap(op(p))
+                    except Exception as e:
+                        ctx.violation('C16|operation-on-an-earlier-result-raises-after-proxies-were-switched-off|%s|%s' % (type(e).__name__, type(plain).__name__),
+                                      {'kind': 'A', 'value': expr, 'how': how, 'operation': i}, '%s: %s (plain value gives %r)' % (type(e).__name__, e, want))
+                        break
+                    if got != want or type(got) is not type(want):
+                        ctx.violation('C16|operation-on-an-earlier-result-differs-after-proxies-were-switched-off|%s' % type(plain).__name__,
+                                      {'kind': 'A', 'value': expr, 'how': how, 'operation': i}, 'plain %r, through the result %r' % (want, got))
+                        break
+            finally:
+                sandbox.result_proxy_class = saved
 
 
 def replay(ctx, case):
